@@ -233,7 +233,7 @@ var (
 
 // gridR enumerates: ordered pairs of different lambda lists out of {0-2 required} x {0-1 optional} x {0-1 key}
 // (132 pairs; thorough: followed by the first one again) x callers compiled after the first definition | before it |
-// before it and called early x two rotations of the call list; 7 fixed argument vectors.
+// before it and called early x two rotations of the call list; 12 fixed argument vectors (5 with an explicit nil).
 func gridR(three bool, yield func(CaseR) bool) {
 	var shapes []Case
 	for nreq := 0; nreq <= 2; nreq++ {
@@ -253,7 +253,8 @@ func gridR(three bool, yield func(CaseR) bool) {
 			}
 		}
 	}
-	vecs := [][]string{{}, {"101"}, {"101", "102"}, {"101", "102", "103"}, {"101", "102", "103", "104"}, {":k0", "200"}, {"101", "102", ":k0", "200"}}
+	vecs := [][]string{{}, {"101"}, {"101", "102"}, {"101", "102", "103"}, {"101", "102", "103", "104"}, {":k0", "200"}, {"101", "102", ":k0", "200"},
+		{"nil"}, {"101", "nil"}, {"101", "102", "nil"}, {":k0", "nil"}, {"101", "102", ":k0", "nil"}}
 	idx := 0
 	for i, a := range shapes {
 		for j, b := range shapes {
